@@ -479,6 +479,10 @@ func writeComputedFieldExpression(w *formatting.IndentedWriter, expression dsl.E
 				if l, ok := t.Left.(*dsl.BinaryExpression); ok && l.Operator.Precedence() < t.Operator.Precedence() {
 					requiresParentheses = true
 				}
+				if _, ok := t.Left.(*dsl.UnaryExpression); ok && t.Operator == dsl.BinaryOpPow {
+					// `.^` binds tighter than unary minus in MATLAB
+					requiresParentheses = true
+				}
 
 				if requiresParentheses {
 					w.WriteString("(")
